@@ -169,6 +169,7 @@ class Ctx:
                 case=jsonable(self.cur_case) if self._viol_count[key] <= 5 else None,
                 check=self.prop,
                 seed=self.seed,
+                process=dict(prelude_done=bool(getattr(self, "prelude_done", False))),  # what a replay has to re-create first
             )
         )
 
